@@ -41,8 +41,9 @@ _CTX = {ast.Load: 0, ast.Store: 1, ast.Del: 2}
 
 def _func_tokens(node, intern, out):
     a = node.args
-    out.append(str(len(a.args)))
-    out.extend(str(intern(x.arg)) for x in a.args)
+    pos = list(getattr(a, 'posonlyargs', [])) + list(a.args)
+    out.append(str(len(pos)))
+    out.extend(str(intern(x.arg)) for x in pos)
     out.append(str(len(a.kwonlyargs)))
     out.extend(str(intern(x.arg)) for x in a.kwonlyargs)
     out.append(str(intern(a.vararg.arg)) if a.vararg else '-')
